@@ -343,6 +343,8 @@ class Fn:
         if k in ("copy", "move"):
             return self.origin_place(o["place"], stack)
         if k == "const":
+            if "promoted" in o:
+                return self.promoted_origin(o["promoted"])
             if "fn" in o:
                 return ("fnconst", o["fn"])
             if "v" in o:
@@ -404,6 +406,17 @@ class Fn:
 
     def op_origin(self, o):
         return self.origin_operand(o)
+
+    def promoted_origin(self, idx):
+        """value of a promoted constant (e.g. `&StatsType::CacheHits`): the origin of _0 in its tiny body"""
+        ps = self.rec.get("promoted") or []
+        if idx >= len(ps):
+            return ("unknown", "promoted")
+        key = ("P", idx)
+        if key not in self._origin_cache:
+            sub = Fn(self.facts, "%s::promoted[%d]" % (self.name, idx), dict(self.rec, body=ps[idx], promoted=[]))
+            self._origin_cache[key] = sub.origin_local(0)
+        return self._origin_cache[key]
 
     def is_simple_accessor(self):
         if hasattr(self, "_simple"):
